@@ -162,7 +162,7 @@ theorem structured_d_rows (name : String) (ext : List String) (inner : List Asse
     by_cases he : nd ∈ ext
     · rw [(structuredMapRow_of_ext name ext m nd hn he).1]
       simp [he]
-    · rw [structuredMapRow_of_inner name ext m nd hn he]
+    · rw [structuredMapRow_of_inner_ne_d name ext m nd hn he]
       simp [he]
 
 /-- what wrapping does to "is a dispatch row at node `n`, step `t`": nothing at an external node, and there is
